@@ -91,6 +91,28 @@ def rle_decode(b, width, count, pos=0, end=None):
     return out[:count], pos
 
 
+def rle_walk(b, width, pos=0, end=None):
+    """Walk the hybrid's runs without expanding RLE runs: returns a list of ('rle', count, value) / ('bp', [values]) and the end position."""
+    end = len(b) if end is None else end
+    runs = []
+    vb = (width + 7) // 8
+    while pos < end:
+        h, pos = read_uleb(b[:end], pos, 5)
+        if h & 1:
+            groups = h >> 1
+            if pos + groups * width > end:
+                raise ValueError('bit-packed run truncated')
+            vals, _ = bitunpack(b, groups * 8, width, pos)
+            pos += groups * width
+            runs.append(('bp', vals))
+        else:
+            if pos + vb > end:
+                raise ValueError('RLE value truncated')
+            runs.append(('rle', h >> 1, int.from_bytes(b[pos:pos + vb], 'little')))
+            pos += vb
+    return runs, pos
+
+
 def rle_encode(values, width, style='greedy', rng=None):
     """style: greedy (RLE for runs >= 8), rle_only, bitpack_only, mixed (random), zero_runs (inserts zero-length runs),
     long_final (final RLE run longer than needed), pad_nonzero (non-zero padding in the last bit-packed group)."""
